@@ -526,12 +526,24 @@ func ruleRIBWiring(c *Ctx) {
 						}
 					}
 				}
-			case *ast.KeyValueExpr:
-				if k, ok := x.Key.(*ast.Ident); ok {
-					if fv, ok := info.ObjectOf(k).(*types.Var); ok && fv.IsField() && fieldOwner(fv) == recvT {
-						out = append(out, Event{Kind: "store:" + fv.Name(), Node: x.Value})
+			}
+			// fields given in a literal of the structure: &T{f: v}
+			if _, isStmt := n.(ast.Stmt); isStmt {
+				inspectNoFuncLit(n, func(m ast.Node) bool {
+					if st, ok := m.(ast.Stmt); ok && st != n {
+						if _, simple := st.(*ast.ExprStmt); !simple {
+							return false // nested statements are handed to ev on their own
+						}
 					}
-				}
+					if kv, ok := m.(*ast.KeyValueExpr); ok {
+						if k, ok := kv.Key.(*ast.Ident); ok {
+							if fv, ok := info.ObjectOf(k).(*types.Var); ok && fv.IsField() && fieldOwner(fv) == recvT {
+								out = append(out, Event{Kind: "store:" + fv.Name(), Node: kv.Value})
+							}
+						}
+					}
+					return true
+				})
 			}
 			return out
 		}
@@ -541,7 +553,9 @@ func ruleRIBWiring(c *Ctx) {
 				watched[e] = true
 			}
 		}
-		outcome := func(p Path) string {
+		var outcomeV func(p Path, val map[string]int) string
+		outcome := func(p Path) string { return outcomeV(p, nil) }
+		outcomeV = func(p Path, val map[string]int) string {
 			set := map[string]bool{}
 			for _, e := range p.Events {
 				k := e.Kind
@@ -559,7 +573,24 @@ func ruleRIBWiring(c *Ctx) {
 						case p.Entails(fnot(f)):
 							continue // the zero value of a fresh structure
 						default:
-							k += "=?"
+							// the value stored is decided by the valuation (`f: hasX(opts)` in a literal): true is the
+							// store, false the zero value
+							decided := val != nil
+							if decided {
+								as := map[string]int{}
+								atomsOf(f, as)
+								for a := range as {
+									if _, ok := val[a]; !ok {
+										decided = false
+									}
+								}
+							}
+							switch {
+							case !decided:
+								k += "=?"
+							case !evalF(f, val):
+								continue
+							}
 						}
 					} else if isNilIdent(info, rhs) {
 						continue
@@ -577,7 +608,7 @@ func ruleRIBWiring(c *Ctx) {
 			return "effects[" + strings.Join(l, ",") + "]"
 		}
 		runTable(c, tableSpec{
-			Rule: rule, Fn: fi, Construct: "option → effect", Events: ev, Outcome: outcome, PE: &pe, LinkFields: true,
+			Rule: rule, Fn: fi, Construct: "option → effect", Events: ev, Outcome: outcome, OutcomeV: outcomeV, PE: &pe, LinkFields: true,
 			Atoms: atoms,
 			Expected: func(v *Valuation) (string, bool) {
 				var l []string
